@@ -1,7 +1,7 @@
 (* Generated-vs-handwritten tie for the accumulating converters of votelib/convert.py (C13).
 
    tools/py2v.py (part 6) regenerates on every run the BODY of convert() of
-     ApprovalToSimpleVotes (plain and split), RankedToFirstPreference, RankedToApprovalVotes, ScoreToApprovalVotesThreshold,
+     ApprovalToSimpleVotes (plain and split), RankedToFirstPreference, RankedToFirstNPreferences, RankedToApprovalVotes, ScoreToApprovalVotesThreshold,
      InvertedSimpleVotes, InvertedApprovalVotes, RankedToPresenceCounts, VoteTotals  and of  votelib.util.add_dict_to_dict
    into Gen/Convert.v: the loops over the ballots (and the loops nested in them) as fold_left, the defaultdict(int) / dict / set
    operations as the primitives of Prelude/PyConv.v.  This file proves that these generated functions ARE the models the C13
@@ -10,6 +10,8 @@
 
      GenTie_Convert_approval_simple   deq (ApprovalToSimpleVotes(split).convert votes)      (dconv (img_approval_simple split) votes)
      GenTie_Convert_first_preference  deq (RankedToFirstPreference().convert votes)         (dconv img_first votes)
+     GenTie_Convert_first_n           oconv (img_first_n n) votes = Some o -> deq (RankedToFirstNPreferences(n).convert votes) o
+                                      (the model's domain: no shared rank among the first n of a ballot)
      GenTie_Convert_ranked_approval   deq (RankedToApprovalVotes().convert votes)           (dconv img_ranked_approval votes)
      GenTie_Convert_score_approval    deq (ScoreToApprovalVotesThreshold(thr).convert votes) (dconv (img_score_approval thr) votes)
      GenTie_Convert_add_dict          deq (add_dict_to_dict(d1, d2): d1 afterwards)          (add_dict d1 d2)
@@ -34,7 +36,7 @@
    equivalent spellings of the source (renamed locals, swapped branches, the test written the other way round) leave the proofs intact. *)
 From Coq Require Import ZArith QArith List Bool Lia Arith Permutation.
 From VL Require Import Prelude.Sx Prelude.PyDict Prelude.GDict Prelude.PyNum Prelude.PyList Prelude.PyConv Model.GetNBest
-     Model.Convert Model.Convert2 Proofs.Convert_proofs Proofs.Convert2_proofs Proofs.JR_proofs Proofs.ChainCands_proofs Proofs.GenConvert_proofs Proofs.GenConvert2_proofs.
+     Model.Convert Model.Convert2 Proofs.Convert_proofs Proofs.Convert2_proofs Proofs.JR_proofs Proofs.ChainCands_proofs Proofs.GenConvert_proofs Proofs.GenConvert2_proofs Proofs.PySeq_proofs.
 From VL Require Gen.Convert.
 Import ListNotations.
 Open Scope Q_scope.
@@ -250,6 +252,39 @@ Proof.
   rewrite E. apply dsim_refl, nodup_conv.
 Qed.
 
+(* ---- RankedToFirstNPreferences.convert: the first n ranks as one frozenset key.  The model (img_first_n) covers the ballots
+   without a shared rank among the first n (elsewhere it is None: the key would be a frozenset containing frozensets); the generated
+   code is total (py_key_itemset).  The tie is stated where the model speaks. *)
+Lemma deq_fold_in {X} (f g : fdict -> X -> fdict) (l : list X) :
+  (forall a b x, In x l -> deq a b -> deq (f a x) (g b x)) -> forall a b, deq a b -> deq (fold_left f l a) (fold_left g l b).
+Proof.
+  induction l as [|x l IH]; intros H a b Hab; cbn [fold_left]; [exact Hab|].
+  apply IH; [intros a' b' y Hy; apply H; right; exact Hy|]. apply H; [left; reflexivity|exact Hab].
+Qed.
+
+Lemma all_plain_key (l : list item) :
+  forallb (fun i => match i with IP _ => true | IS _ => false end) l = true -> py_key_itemset l = kset (canon_set (flatten l)).
+Proof.
+  intros H. assert (E : item_plains l = flatten l /\ item_sets l = []).
+  { induction l as [|[c|s] l IH]; cbn [forallb andb] in H; [split; reflexivity| |discriminate H].
+    destruct (IH H) as [E1 E2]. unfold item_plains, item_sets, flatten in *. cbn [flat_map members app]. rewrite E1, E2. split; reflexivity. }
+  destruct E as [E1 E2]. unfold py_key_itemset, kset. rewrite E1, E2. cbn [canon_sets fold_left map]. rewrite app_nil_r. reflexivity.
+Qed.
+
+Lemma tie_first_n (n : nat) votes o :
+  oconv (img_first_n n) votes = Some o -> deq (Gen.Convert.RankedToFirstNPreferences_convert (Z.of_nat n) votes) o.
+Proof.
+  unfold oconv. destruct (forallb _ votes) eqn:HF; [|discriminate]. intros E. injection E as <-.
+  unfold Gen.Convert.RankedToFirstNPreferences_convert. rewrite dconv_unfold. cbv zeta.
+  apply deq_fold_in; [|constructor]. intros a b [r w] Hin Hab. cbn [fst snd].
+  rewrite forallb_forall in HF. specialize (HF _ Hin). cbn [fst] in HF. unfold img_first_n in *.
+  destruct r as [|i r]; [cbn [fold_left]; exact Hab|].
+  rewrite py_slice_to_nat.
+  destruct (forallb (fun i0 => match i0 with IP _ => true | IS _ => false end) (firstn n (i :: r))) eqn:EP; [|discriminate HF].
+  cbn [fold_left]. unfold madd. cbn [fst snd]. rewrite (all_plain_key _ EP).
+  apply deq_dd_add; [exact Hab|]. symmetry. apply Qmult_1_l.
+Qed.
+
 (* ================= the tie theorems ================= *)
 Theorem GenTie_Convert_approval_simple : forall (split : bool) (votes : list (list C * Q)),
   deq (Gen.Convert.ApprovalToSimpleVotes_convert split votes) (dconv (img_approval_simple split) votes).
@@ -310,6 +345,19 @@ Proof.
   apply Permutation_refl.
 Qed.
 
+Theorem GenTie_Convert_first_n : forall (n : nat) (votes : list (ranked * Q)) (o : list (sx * Q)),
+  oconv (img_first_n n) votes = Some o -> deq (Gen.Convert.RankedToFirstNPreferences_convert (Z.of_nat n) votes) o.
+Proof. exact tie_first_n. Qed.
+
+(* the hypothesis is satisfiable (no shared rank among the first two); outside it the generated code still answers: the key holds a set *)
+Example gen_convert_first_n_example :
+  let votes := [([IP 3; IP 1; IS [2; 4]]%positive, 2 # 1); ([], 1 # 1); ([IP 1; IP 3]%positive, 4 # 1)] in
+  oconv (img_first_n 2) votes = Some [(kset [1; 3]%positive, 1 * (2 # 1) + 1 * (4 # 1))] /\
+  Gen.Convert.RankedToFirstNPreferences_convert 2 votes = [(kset [1; 3]%positive, 0 + (2 # 1) + (4 # 1))] /\
+  Gen.Convert.RankedToFirstNPreferences_convert 3 votes
+    = [(L [kc 1%positive; kc 3%positive; kset [2; 4]%positive], 0 + (2 # 1)); (kset [1; 3]%positive, 0 + (4 # 1))].
+Proof. repeat split; reflexivity. Qed.
+
 (* what [run_kind] of Model/Convert2.v answers for a decodable profile is the generated function (the four kinds translated here) *)
 Corollary GenTie_Convert_run_kind : forall (d : fdict),
   (forall sp v, decode_all key_approval d = Some v ->
@@ -353,3 +401,4 @@ Print Assumptions GenTie_Convert_inverted_simple.
 Print Assumptions GenTie_Convert_run_kind.
 Print Assumptions GenTie_Convert_inverted_approval.
 Print Assumptions GenTie_Convert_presence.
+Print Assumptions GenTie_Convert_first_n.
